@@ -329,3 +329,117 @@ def build_grid(case):
     B.multi.initialize_for_new_trial()
     B.tdm, B.inner, B.outer = tdm, inner, outer
     return B
+
+
+# --------------------------------------------------------------------------------------------------
+# the IceCube consumers of <name>:gpidx (skyllh/i3): the real SingleParamFluxPointLikeSourceI3DetSigYield as yield
+# leaf (analytic log-yield table -> RectBivariateSpline) and the real SplinedI3EnergySigSetOverBkgPDFRatio (tiny
+# synthetic MC; recipe of harness/cache_fixtures.build_i3) times a parameter-free spatial-like ratio:
+#   PDFRatioProduct -> SourceWeightedPDFRatio -> ZeroSigH0SingleDatasetTCLLHRatio (J datasets) -> MultiDatasetTCLLHRatio
+#
+# i3 case (JSON-able): K, W [K], groups, layout (local name 0 = 'gamma' mapped to every source), theta,
+#   interp 'linear'|'parabola', J, N [J], E [J], ev_seed, order 'first'|'second' (position of the energy ratio)
+
+I3_SIN_DEC_RANGES = [(-1.0, 1.0), (-0.3, 1.0), (-1.0, 0.5)]
+
+
+def i3_log_yield_table(j, g):
+    sd = np.linspace(I3_SIN_DEC_RANGES[j][0], I3_SIN_DEC_RANGES[j][1], 9)
+    gam = np.linspace(0.5, 4.5, 17)
+    (SD, G) = np.meshgrid(sd, gam, indexing='ij')
+    logY = (np.log(1.0 + 0.7 * j + 0.3 * g) + 0.6 * SD - 0.2 * SD ** 2 - (0.4 + 0.35 * j + 0.2 * g) * G
+            + 0.03 * (j + 1) * G ** 2 * SD)
+    return sd, gam, logY
+
+
+_I3_INPUTS = {}
+
+
+def _i3_energy_inputs(cfg):
+    """signal PDF set + background PDF from synthetic MC; built once per process (they are read-only inputs of the
+    SplinedI3EnergySigSetOverBkgPDFRatio constructor, which creates its own splines and caches per object)"""
+    if 'v' not in _I3_INPUTS:
+        _I3_INPUTS['v'] = _i3_energy_inputs_build(cfg)
+    return _I3_INPUTS['v']
+
+
+def _i3_energy_inputs_build(cfg):
+    from skyllh.core.binning import BinningDefinition
+    from skyllh.core.flux_model import PowerLawEnergyFluxProfile, SteadyPointlikeFFM
+    from skyllh.core.parameters import Parameter
+    from skyllh.core.storage import DataFieldRecordArray
+    from skyllh.i3.backgroundpdf import DataBackgroundI3EnergyPDF
+    from skyllh.i3.signalpdf import SignalI3EnergyPDFSet
+    rng = np.random.RandomState(7)
+    n = 3000
+    lte = rng.uniform(1.5, 7.0, n)
+    mc = DataFieldRecordArray({'true_energy': 10 ** lte,
+                               'log_energy': np.clip(lte - 0.3 + rng.normal(0, 0.4, n), 1.05, 6.95),
+                               'sin_dec': rng.uniform(-1, 1, n), 'mcweight': 10 ** lte * rng.uniform(0.5, 1.5, n)}, copy=True)
+    ne = 600
+    exp = DataFieldRecordArray({'log_energy': np.clip(rng.normal(3.2, 0.9, ne), 1.05, 6.95),
+                                'sin_dec': rng.uniform(-1, 1, ne)}, copy=True)
+    sb = BinningDefinition('sin_dec', np.linspace(-1, 1, 5))
+    eb = BinningDefinition('log_energy', np.linspace(1, 7, 7))
+    flux = SteadyPointlikeFFM(Phi0=1, energy_profile=PowerLawEnergyFluxProfile(E0=1e3, gamma=2, cfg=cfg), cfg=cfg)
+    gam = Parameter('gamma', 2.0, 0.5, 3.0)
+    sigset = SignalI3EnergyPDFSet(cfg=cfg, data_mc=mc, log10_energy_binning=eb, sin_dec_binning=sb, fluxmodel=flux,
+                                  param_grid_set=gam.as_linear_grid(delta=0.1), ncpu=1)
+    bkg = DataBackgroundI3EnergyPDF(cfg=cfg, data_exp=exp, log10_energy_binning=eb, sin_dec_binning=sb)
+    return sigset, bkg
+
+
+def build_i3(case):
+    import scipy.interpolate
+    from skyllh.core.binning import BinningDefinition
+    from skyllh.core.dataset import Dataset
+    from skyllh.core.flux_model import SteadyPointlikeFFM
+    from skyllh.core.interpolate import (Linear1DGridManifoldInterpolationMethod,
+                                         Parabola1DGridManifoldInterpolationMethod)
+    from skyllh.core.pdfratio import PDFRatioProduct, SourceWeightedPDFRatio
+    from skyllh.core.services import DatasetSignalWeightFactorsService, SrcDetSigYieldWeightsService
+    from skyllh.i3.detsigyield import SingleParamFluxPointLikeSourceI3DetSigYield
+    from skyllh.i3.pdfratio import SplinedI3EnergySigSetOverBkgPDFRatio
+    B = Built()
+    K, J = case['K'], case['J']
+    cfg = fx.make_cfg()
+    sources = fx.make_sources(K, weights=case['W'])
+    shg_mgr = fx.make_shg_mgr(cfg, sources, group_sizes=case['groups'])
+    pmm = make_pmm_layout(sources, case['layout'])
+    B.cfg, B.sources, B.shg_mgr, B.pmm = cfg, sources, shg_mgr, pmm
+    flux = SteadyPointlikeFFM(Phi0=1, energy_profile=None, cfg=cfg)
+    arr = np.empty((J, len(case['groups'])), dtype=object)
+    for j in range(J):
+        ds = Dataset(name='DS%d' % j, exp_pathfilenames=None, mc_pathfilenames=None, livetime=100.,
+                     default_sub_path_fmt='', version=1, cfg=cfg)
+        for g in range(len(case['groups'])):
+            sd, gam, logY = i3_log_yield_table(j, g)
+            spl = scipy.interpolate.RectBivariateSpline(sd, gam, logY, kx=3, ky=3, s=0)
+            arr[j, g] = SingleParamFluxPointLikeSourceI3DetSigYield(
+                param_name='gamma', dataset=ds, fluxmodel=flux, livetime=100.,
+                sin_dec_binning=BinningDefinition('sin_dec', sd), log_spl_sinDec_param=spl)
+    dsy = fx.StubDetSigYieldService(shg_mgr, arr)
+    sdw = SrcDetSigYieldWeightsService(detsigyield_service=dsy)
+    dswf = DatasetSignalWeightFactorsService(src_detsigyield_weights_service=sdw)
+    B.services = (dsy, sdw, dswf)
+    icls = Linear1DGridManifoldInterpolationMethod if case['interp'] == 'linear' \
+        else Parabola1DGridManifoldInterpolationMethod
+    B.energy, B.llhs, B.tdms = [], [], []
+    for j in range(J):
+        (sigset, bkg) = _i3_energy_inputs(cfg)
+        energy = SplinedI3EnergySigSetOverBkgPDFRatio(cfg=cfg, sig_pdf_set=sigset, bkg_pdf=bkg, interpolmethod_cls=icls, ncpu=1)
+        rng = np.random.RandomState(case['ev_seed'] + 17 * j)
+        E = case['E'][j]
+        sin_dec = rng.uniform(-0.9, 0.9, E)
+        ev = fx.make_events(E, log_energy=rng.uniform(1.2, 6.8, E), sin_dec=sin_dec, dec=np.arcsin(sin_dec))
+        spatial = fx.StubPDFRatio(cfg, np.exp(rng.uniform(-1.5, 2.5, size=(K, E))))
+        prod = PDFRatioProduct(energy, spatial, cfg=cfg) if case.get('order', 'first') == 'first' \
+            else PDFRatioProduct(spatial, energy, cfg=cfg)
+        outer = SourceWeightedPDFRatio(dataset_idx=j, src_detsigyield_weights_service=sdw, pdfratio=prod, cfg=cfg)
+        tdm = fx.make_tdm(shg_mgr, pmm, ev, n_events=case['N'][j])
+        B.energy.append(energy)
+        B.tdms.append(tdm)
+        B.llhs.append(fx.make_single_llhratio(cfg, pmm, shg_mgr, tdm, outer))
+    B.multi = fx.make_multi_llhratio(cfg, pmm, sdw, dswf, B.llhs)
+    B.multi.initialize_for_new_trial()
+    return B
